@@ -18,6 +18,9 @@ pub struct Case {
     pub args: Vec<String>,
     /// nullglob / dotglob
     pub opts: Vec<String>,
+    /// what $HOME looks like: "plain" | "blank" (contains a space) | "glob" (contains `*`, matching entries of the tree)
+    #[serde(default)]
+    pub home: String,
 }
 
 const LITERALS: &[&str] = &["ab", "a\\ b", "\\*", "*", "?", "[ab]", "*.txt", ".", "-", "=", "x=y", "/", "dir/", "d*/c*", ".*", "[x]", "\\[x\\]", "sp*", "%", "nomatch*"];
@@ -70,8 +73,9 @@ pub fn cases() -> BoxedStrategy<Case> {
         proptest::sample::select(vec!["unset", "default", "default", "space", "newline", "empty"]),
         proptest::collection::vec(proptest::sample::select(vec!["p1", "", "q r", "*", " lead"]), 0..=3),
         proptest::sample::subsequence(vec!["nullglob", "dotglob"], 0..=2),
+        proptest::sample::select(vec!["plain", "plain", "plain", "blank", "glob"]),
     )
-        .prop_map(|(mut words, ifs, args, opts)| {
+        .prop_map(|(mut words, ifs, args, opts, home)| {
             // keep the shapes of the known brace-expansion finding rare (1 word in 8), so that the rest of
             // the domain is still searched when that class is excluded
             for w in words.iter_mut() {
@@ -87,7 +91,7 @@ pub fn cases() -> BoxedStrategy<Case> {
                     }
                 }
             }
-            Case { words, ifs: ifs.to_string(), args: args.into_iter().map(String::from).collect(), opts: opts.into_iter().map(String::from).collect() }
+            Case { words, ifs: ifs.to_string(), args: args.into_iter().map(String::from).collect(), opts: opts.into_iter().map(String::from).collect(), home: home.to_string() }
         })
         .boxed()
 }
@@ -100,6 +104,12 @@ fn script(c: &Case) -> String {
         s.push_str(&format!("shopt -{} {o}\n", if c.opts.iter().any(|x| x == o) { "s" } else { "u" }));
     }
     s.push_str("cd t\n");
+    // the result of a tilde expansion is never split or globbed, whatever the directory is called
+    match c.home.as_str() {
+        "blank" => s.push_str("HOME=\"$PWD/my home\"\n"),
+        "glob" => s.push_str("HOME=\"$PWD/d*\"\n"),
+        _ => {}
+    }
     match c.ifs.as_str() {
         "unset" => s.push_str("unset IFS\n"),
         "space" => s.push_str("IFS=' '\n"),
@@ -264,7 +274,7 @@ pub fn run(run: &mut PropRun, ctx: &Ctx) {
                 differential vs bash 5.2.15 on the argdump output; non-trivial = a word mixing >= 2 piece kinds; evaluations counts (word, context) pairs"
         .into();
     run.assumptions.push("whitespace IFS only (the property's stated domain); bash 5.2.15 reference".into());
-    let n = ctx.tier.pick(2500, 50_000);
+    let n = ctx.tier.pick(8000, 100_000);
     let rep = explore(&Diff, cases(), n, ctx);
     let floors: Vec<(&str, u64)> = vec![("brace+param", n as u64 / 50), ("at-adjacent-to-text", n as u64 / 20), ("param-with-ifs-chars", n as u64 / 10), ("split+glob", n as u64 / 20), ("ifs:empty", n as u64 / 20), ("ifs:newline", n as u64 / 20)];
     if rep.failures.is_empty() {
